@@ -45,7 +45,7 @@ def acceptance(cfg):
     L = 3 if cfg.tier == "quick" else 4
     for n in range(1, L + 1):
         for seq in itertools.product(C.KINDS, repeat=n):
-            if seq.count("J") + seq.count("K") <= 1:
+            if seq.count("J") + seq.count("K") + seq.count("Q") <= 1:
                 seqs.append(seq)
     for seq in seqs:
         base = tuple([False] * len(seq))
